@@ -93,7 +93,10 @@ def gen(tier, rng):
     out = []
     hx = lambda n: bytes(rng.getrandbits(8) for _ in range(n)).hex()  # noqa: E731
     its = [0, 1, 255, 256, 65535, -1, 65536, 2 ** 32, "0", "10", "65535", "65536", "0x0", "0xffff", "0x10000", "0xFF",
-           "12a", "", "0x", None, 1.0, True, [1]]
+           "12a", "", "0x", None, 1.0, True, [1],
+           # decimal with leading zeros (accepted: int(s, 10)); other radix prefixes and an upper-case 0X
+           # (refused: only a lower-case 0x selects base 16)
+           "00045", "007", "0b101101", "0o55", "0X2D", "0x002d"]
     n = 10 if tier == "quick" else 60
     for it in its:
         for _ in range(max(1, n // 5)):
